@@ -30,6 +30,8 @@ PERTURB = [
     ('malloc-perturb', {'MALLOC_PERTURB_': '165', 'MALLOC_ARENA_MAX': '1'}, []),
     # the output files already exist and are longer than what this run writes: nothing of the old content may survive
     ('stale-outputs', {'__STALE__': '1'}, []),
+    # PWD spells the working directory through a symbolic link (the 'logical cwd'): paths in the outputs must not follow it
+    ('pwd-symlink', {'__PWD_LINK__': '1'}, []),
 ]
 # legitimate environment settings that reverse the relative order of heap blocks: the recorded pointer-order finding
 POINTER = [('mmap-threshold', {'GLIBC_TUNABLES': 'glibc.malloc.mmap_threshold=32'}, []),
@@ -58,6 +60,8 @@ def main():
         text = '#include <string>\n' + text + '\nclass Sx%d {\n__published:\n  std::string *gs();\n  std::string &gr();\n  const std::string &gc() const;\n  std::string gv(const std::string &a, std::string b, const std::string *c);\n  void sv(std::string *out);\n};\n' % i
         # typedefs that name wrapped classes (global and nested): the back-ends describe them in comments and tables
         text += '\nBEGIN_PUBLISH\ntypedef Ov%d OvAlias%d;\ntypedef Sx%d *SxPtr%d;\nEND_PUBLISH\nclass Td%d {\n__published:\n  typedef Ov%d Inner;\n  Inner *get();\n};\n' % (i, i, i, i, i, i)
+        # the clock macros in exported default arguments: whatever the tool makes of them may not depend on the time of the run or on TZ
+        text += '\nclass Clk%d {\n__published:\n  void stamp(const char *d = __DATE__, const char *t = __TIME__);\n  int line(int l = __LINE__, const char *f = __FILE__);\n};\n' % i
         d = os.path.join(wd, 'c%d' % i)
         os.makedirs(d)
         open(os.path.join(d, 'h.h'), 'w').write(text)
@@ -69,6 +73,13 @@ def main():
         for k in ('SOURCE_DATE_EPOCH', 'GLIBC_TUNABLES', 'TZ', 'LC_ALL', 'LC_NUMERIC'):
             env.pop(k, None)
         env.update(env_extra)
+        if env.pop('__PWD_LINK__', None):
+            lnk = os.path.join(d, tag + '_lnk')
+            if not os.path.islink(lnk):
+                os.symlink(os.path.join(d, tag), lnk)
+            env['PWD'] = lnk
+        else:
+            env['PWD'] = os.path.join(d, tag)
         if env.pop('__STALE__', None):
             for f in ('o.cxx', 'o.in', 'o.txt', 'mod.cxx'):
                 open(os.path.join(d, tag, f), 'w').write('/* left over from an earlier, larger run */\n' * 20000)
